@@ -47,7 +47,7 @@ def scenarios(ctx):
         # outage in the middle of traffic: redo (keepSafe + what is left in conn.In) goes to the spool in bulk, lines during
         # the outage go to InRT, recovery, unspooling while traffic goes on; twice
         ("outage-recovery", dict(connbuf=16, slow_us=1200),
-         ["up", "send 20 %d 200" % B, "slowwriter on", "bg 240 1 700", "waithanded 35", "down", "slowwriter off", "waithanded 25", "up",
+         ["up", "send 20 %d 200" % B, "slowwriter on", "bg 190 1 700", "waithanded 35", "down", "slowwriter off", "waithanded 25", "up",
           "waithanded 30", "downnw", "waithanded 15", "upnw", "join", "settle", "send 8"]),
         # slow endpoint: the endpoint stops reading and the connection writer is slow (every socket write takes a while):
         # conn.In fills, lines are dropped and counted, the slow flags gate the unspooling
@@ -55,8 +55,10 @@ def scenarios(ctx):
          ["run", "send 15", "backlog 8", "up", "slowwriter on", "send 60 10 100", "pause", "send 20 5 500", "resume", "slowwriter off",
           "send 20 4 2000", "settle", "send 10 2 500"]),
         # connections cut (listener stays) while lines are in flight, spool on
-        ("cut-connections", dict(connbuf=6, iolines=3),
-         ["up", "bg 160 1 1500", "waithanded 20", "cutnw", "waithanded 10", "online", "waithanded 25", "cut", "join", "settle", "send 6"]),
+        # ... and a connection that is cut right after lines were dropped for it: the new connection starts with clean slow flags
+        ("cut-connections", dict(connbuf=6, iolines=3, slow_us=1200),
+         ["up", "bg 80 1 1500", "waithanded 20", "cutnw", "waithanded 10", "online", "waithanded 25", "cut", "join", "settle", "send 6",
+          "online", "slowwriter on", "bg 110 1 300", "waithanded 50", "cutnw", "slowwriter off", "join", "online", "send 10 2 2000", "settle"]),
         # keepSafe rotation: the keep period is short; lines of the old generation, of the recent generation, and lines old
         # enough to have been discarded; then the connection is lost and everything kept comes back through redo
         ("keepsafe-rotation", dict(keep_ms=250, flush_ms=20),
@@ -87,6 +89,17 @@ def scenarios(ctx):
         steps += ["join"]
         scns.append(dict(base, name="random-%d" % j, steps=steps, spool=rng.random() < 0.75, connbuf=rng.choice([2, 5, 12]),
                          iolines=rng.choice([1, 3, 6]), reconn_ms=rng.choice([100, 150])))
+    if not q:
+        # thorough: twice the traffic in the background phases
+        for s in scns:
+            st = []
+            for x in s["steps"]:
+                p = x.split()
+                if p[0] == "bg":
+                    p[1] = str(2 * int(p[1]))
+                    x = " ".join(p)
+                st.append(x)
+            s["steps"] = st
     for i, s in enumerate(scns):
         s["id"] = i + 1
         tot = 0
@@ -118,7 +131,7 @@ def run_driver(ctx, scns, timeout=600):
 
 
 # ----------------------------------------------------------------------------- log -> per-goroutine streams
-FIELDS = dict(ev="", id=0, conn=0, lo=0, hi=0, out="", dead=False, b=False, ncu=0, spawn=False, sn=False, sl=False,
+FIELDS = dict(ev="", id=0, conn=0, oconn=0, lo=0, hi=0, out="", dead=False, b=False, ncu=0, spawn=False, sn=False, sl=False,
               old=0, new=0, n=-1, src="", mode="")
 
 
@@ -159,6 +172,10 @@ def streams_of(raw):
         while i < len(evs):
             e = evs[i]
             name, s = e["ev"], e["seq"]
+            if name == "mark":          # the goroutine was held in the hook until here (slow-writer emulation)
+                prev = s
+                i += 1
+                continue
             lo = prev
             nxt, nxt2 = take(i + 1), take(i + 2)
             used = 1
@@ -166,10 +183,10 @@ def streams_of(raw):
             if role == "relay":
                 if name == "relay.loop":
                     if nxt is not None and nxt["ev"] == "relay.dead":
-                        r = rec(ev="relay.top", conn=e["conn"], dead=True, lo=lo, hi=nxt["seq"])
+                        r = rec(ev="relay.top", conn=e["conn"], dead=True, lo=lo, hi=nxt["seq"], sn=e["sn"], sl=e["sl"])
                         used = 2
                     else:
-                        r = rec(ev="relay.top", conn=e["conn"], dead=False, lo=lo, hi=s)
+                        r = rec(ev="relay.top", conn=e["conn"], dead=False, lo=lo, hi=s, sn=e["sn"], sl=e["sl"])
                 elif name in ("relay.in", "relay.unspool"):
                     if nxt is None:
                         break               # the log ends inside this step
@@ -177,7 +194,7 @@ def streams_of(raw):
                         unknown.append(e)
                         r = rec(ev="unknown:" + name + "+" + nxt["ev"], lo=lo, hi=s)
                     else:
-                        r = rec(ev=name, conn=e["conn"], id=e["id"], out=nxt["ev"], lo=lo, hi=nxt["seq"],
+                        r = rec(ev=name, conn=e["conn"], id=e["id"], out=nxt["ev"], oconn=nxt.get("conn", 0), lo=lo, hi=nxt["seq"],
                                 sn=e.get("sn", False), sl=e.get("sl", False))
                         used = 2
                 elif name == "relay.tick":
@@ -394,7 +411,7 @@ def run(ctx):
             kind, name, j, streams, consts = tasks[gi]
             return validate(ctx, streams, consts, "hk%d" % (first + gi), own_dir="specH%d" % (first + gi), timeout=ctx.pick(600, 2400))
 
-        with ThreadPoolExecutor(max_workers=ctx.pick(4, 5)) as pool:
+        with ThreadPoolExecutor(max_workers=5) as pool:
             return list(pool.map(one, range(len(tasks))))
 
     results = run_tasks(tasks, 0)
@@ -417,7 +434,7 @@ def run(ctx):
     #         (the trace set tells the model from its deviations), and
     #      3. binding self-tests: one hook event removed / one line id changed => rejected
     tasks2 = []
-    devs = DEVIATIONS[:5] if q else DEVIATIONS
+    devs = [d for d in DEVIATIONS if d[0] in ("DropNoCount", "DownDropNoCount", "RedoSkipDrain", "NoIngest")] if q else DEVIATIONS
     skipped = []
     for dev, needs in DEVIATIONS:
         cands = [j for j in good if needs(j["final"]["hooks"], j["raw"])]
@@ -433,7 +450,7 @@ def run(ctx):
         j = min(spoolgood, key=lambda j: len(j["raw"]))
         cs = corruptions(j["raw"], rng)
         if q:
-            cs = [c for c in cs if c[0] in ("remove-hd.recv", "remove-spool.put", "id-hd.written", "id-relay.in")]
+            cs = [c for c in cs if c[0] in ("remove-hd.recv", "id-hd.written", "id-relay.in", "conn-send.ok")]
         for name, raw2 in cs:
             st2, _ = streams_of(raw2)
             tasks2.append(("selftest", name, j, st2, j["consts"]))
@@ -451,7 +468,7 @@ def run(ctx):
             selftests[name] = "%s: %s/%d" % (j["scn"]["name"], matched, n_events(streams))
     ctx.log("deviations rejected: %s" % json.dumps(rejected_devs))
     ctx.log("binding self-tests rejected: %s" % json.dumps(selftests))
-    if good:
+    if len(good) == len(jobs):      # (with drift the scenarios needed may be missing: the NOTE is the result of the run)
         if len(rejected_devs) < ctx.pick(3, 5):
             raise Machinery("only %d deviations of the model could be confronted with the traces (%s not exercised): vacuity" % (len(rejected_devs), skipped))
         if len(selftests) < ctx.pick(3, 6):
